@@ -39,11 +39,12 @@ CHECKS = {
     },
     "C01": {
         "category": "model_checking",
-        "text": "Depth-bounded exhaustive operation sequences on the real Session/Decryptor/OutputBuilder through run(): "
+        "text": "Depth-bounded exhaustive operation sequences on the real Session/Decryptor/OutputBuilder through run() (plus the same "
+                "histories spoken by two live OpenSSL endpoints, and the repository's 30 real captures against the anchored receiver model): "
                 "every table suite x valid version (x encrypt-then-MAC, x TLS 1.3 handshake secrets present/absent) with a "
                 "history touching every stateful mechanism; per cipher-state class every application-record history up to "
                 "depth 3 (thorough 4) over {client,server} x {0,1,block boundary,300}; handshake shapes within 2 deviations "
-                "of the default; segmentations x IPv4/IPv6. Oracle: the reassembled output streams equal what the modelled "
+                "of the default (incl. 0.5-RTT server data, record padding, tickets); segmentations, full-duplex capture orders x IPv4/IPv6. Oracle: the reassembled output streams equal what the modelled "
                 "peer sent. The cipher state per direction is a function of the whole history, so only exhaustive "
                 "histories (not single records) decide it.",
         "design_ref": "DESIGN.md section 5, C01",
@@ -57,7 +58,7 @@ CHECKS = {
         "text": "Every QUIC v1 connection within 2 deviations of the default over ~110 alternatives (4 suites, offered order, CID "
                 "lengths 0/1/8/20, packet-number length/start/gaps, coalescing partitions, 13 frame types before/after STREAM, "
                 "several STREAM frames/streams, all STREAM flag combinations, ClientHello split over 2-3 CRYPTO frames in every "
-                "order, Retry, 0-RTT, NEW_CONNECTION_ID switch, IPv6), every frame sequence of length <=2 around the STREAM frame, "
+                "order, Retry, 0-RTT, NEW_CONNECTION_ID switch incl. equal IDs, IPv6, non-monotonic timestamps), every frame sequence of length <=2 around the STREAM frame, "
                 "and every packet history (<=8 packets, 3 generations) of an explicit-state model of the RFC 9001 key-update "
                 "protocol, each rendered by the peer model and run through the real program. Oracle: datagram list equality.",
         "design_ref": "DESIGN.md section 5, C02",
